@@ -883,6 +883,22 @@ pub fn c19_configs(thorough: bool) -> Vec<EpCfg> {
             }
         }
     }
+    // a clean start that keeps the new session (v5.0: Clean Start 1 with a Session Expiry Interval), publishes handed
+    // over before the CONNACK (stored), and a server that answers "session present" all the same: whatever the
+    // connection makes of such a CONNACK, nothing may be requested for sending behind a close request
+    for role in [RoleK::Client, RoleK::Any] {
+        if !thorough && role == RoleK::Any {
+            continue;
+        }
+        let mut c = EpCfg::new(&cfg_name("c19", role, Some(Ver::V5), "clean start with expiry, early publishes"), role, Some(Ver::V5));
+        c.auto_pub = true;
+        c.window = 2;
+        c.alph = Alph { pub_q: vec![1, 2], topics: 1, als: vec![Al::No], pub_any_status: true, disconnect: true, peer_acks: vec![AckKind::Puback, AckKind::Pubrec, AckKind::Pubcomp], peer_ack_ids: vec![1, 2], peer_disconnect: true, spontaneous_close: true, ..Alph::default() };
+        c.connects = vec![ConnProf { sei: Some(100), ..ConnProf::basic(true) }, ConnProf::basic(false)];
+        c.connacks = vec![AckProf::basic(true), AckProf::basic(false), AckProf { ok: false, ..AckProf::basic(false) }];
+        c.groups = vec!["c19"];
+        v.push(c);
+    }
     v
 }
 pub fn c19(rep: &mut Report) {
